@@ -16,6 +16,6 @@ CONSTANTS
  GenDepth = 0
  LateParty = 99
 INVARIANTS Agreement NoDuplicate Integrity QValidity QTotality KnownIsAccepted
-PROPERTIES DeliveryStepP EventuallyReturned EventuallyDelivered
+PROPERTIES DeliveryStepP EventuallyDelivered
 CHECK_DEADLOCK FALSE
 
